@@ -107,16 +107,18 @@ def fill_oracle(scs, oracles, extra=None):
 MISS = re.compile(r"ORACLE-MISS:(float(\d+):([0-9a-f]*)|dur:([0-9a-f]*)|durfmt:(-?\d+))")
 
 
-def run_model(scs, oracles=None, shard=150, label="scen"):
+def run_model(scs, oracles=None, shard=None, label="scen"):
+    if shard is None:
+        shard = max(8, min(150, (len(scs) + lib.NPROC - 1) // lib.NPROC))
     if oracles is None:
         oracles = [{"float": {}, "dur": {}, "durfmt": {}} for _ in scs]
         fill_oracle(scs, oracles)
     results = [None] * len(scs)
     todo = list(range(len(scs)))
     for rnd in range(4):
-        outs = lib.coq_eval(["Base.Str", "Model.Types", "Model.Scenario"],
-                            "Definition run_case (s : scenario) : str := run_scenario s.",
-                            "scenario", [scen.scenario_coq(scs[i], oracles[i]) for i in todo], shard=shard, label=label)
+        outs = lib.coq_eval(["Base.Str", "Model.Decode"],
+                            "From Coq Require Import Uint63.\nDefinition run_case (c : nat * list int) : str := run_packed (fst c) (snd c).",
+                            "nat * list int", [scen.pack_coq(scen.scenario_bytes(scs[i], oracles[i])) for i in todo], shard=shard, label=label)
         extra = []
         nxt = []
         for i, o in zip(todo, outs):
